@@ -122,6 +122,21 @@ def run(ck, prog, tier, load):
             if e_calls(e, r"Iterator.*::count$") and root_is(e, raw_args) and not e_calls(e, r"percent_decode"):
                 ok = True
     ck.ob("C16-b.count-from-raw-path", "segment_count", ok, pp, None, "the reference slash count is taken from the raw (undecoded) path argument")
+    # the per-segment checks look at the DECODED text, and what is returned is the path assembled from the checked
+    # segments (decoding after the checks lets `%2e%2e` and `%2F` through; rebuilding the result bypasses them)
+    splits = [(bb, t) for bb, t in pp.calls(r"core::str::<impl str>::split$|str::split$")]
+    ck.anchor("C16-b", len(splits), 1, "path.split('/') in parse_path")
+    for bb, t in splits:
+        recv = pp.op_expr(t["args"][0], 8)
+        ck.ob("C16-b.checks-on-decoded", "parse_path", bool(e_calls(recv, r"percent_decode_str$|PercentDecode.*::decode_utf8$")), pp, bb,
+              "the text split into segments for the dot/hidden/separator checks is the percent-decoded path: %s" % short(recv, 4))
+    pushes_pb = [bb for bb, t in pp.calls(r"PathBuf::push$")]
+    BUF = set(base_local(pp, pp.term(bb)["args"][0]) for bb in pushes_pb) - {None}
+    wraps = [(bb, s_) for bb, i, s_ in pp.assigns() if s_["rv"]["k"] == "agg" and (s_["rv"].get("adt") or "").endswith("PathBufWrap")]
+    ck.anchor("C16-b", len(wraps), 1, "construction of the returned PathBufWrap in parse_path")
+    for bb, s_ in wraps:
+        src = [base_local(pp, o) for o in s_["rv"]["ops"]]
+        ck.ob("C16-b.returned-is-built", "parse_path", bool(src) and all(x in BUF for x in src), pp, bb, "the PathBuf returned is the one the checked segments were pushed onto, untouched (not rebuilt from text afterwards)")
     comp = [a for a in pp.live if pp.branch(a) and pp.branch(a)[0][0] == "discr" and (pp.branch(a)[0][2] or "").endswith("path::Component")]
     ck.ob("C16-b.components-rechecked", "parse_path", bool(comp) and all(pp.dominates(a, o) or o in pp.reach([a]) for a in comp for o in oks), pp, comp[0] if comp else None, "the built path is re-parsed with std and every component must be Component::Normal before Ok is returned")
 
@@ -172,6 +187,13 @@ def run(ck, prog, tier, load):
             trues = [d for d in ir.defs().get(l, []) if ir.def_expr(d, 3)[:3] == ("const", None, 1)]
             ok = ok or (bool(trues) and bool(rp) and all(any(ir.dominates(r_, d[1]) for r_ in rp) for d in trues))
         ck.ob("C16-c.partial-only-when-ranged", "206", ok, ir, st["PARTIAL_CONTENT"], "206 is set only when a satisfiable range was parsed")
+
+    # RFC 7232 section 6: a failed If-Match / If-Unmodified-Since (412) wins over a satisfied If-None-Match / If-Modified-Since (304)
+    if "PRECONDITION_FAILED" in st and "NOT_MODIFIED" in st:
+        PF = set(locals_guarding(ir, st["PRECONDITION_FAILED"], True))
+        ck.anchor("C16-c", len(PF), 1, "bool variable under whose true edge 412 is answered (precondition failed)")
+        ok_p = guarded_by(ir, st["NOT_MODIFIED"], lambda c, lab: bool(bool_test(c, lab)) and is_local(bool_test(c, lab)[0], PF) and bool_test(c, lab)[1] is False)[0]
+        ck.ob("C16-c.precondition-before-not-modified", "into_response", ok_p, ir, st["NOT_MODIFIED"], "304 is answered only on the edge where the precondition did not fail: when both families of conditional headers are present and disagree the answer is 412")
 
     # ---- (d) reader accounting -----------------------------------------------------------------
     pn = prog.one(r"^<actix_files::chunked::ChunkedReadFile<F, Fut> as futures_core::stream::Stream>::poll_next$")
